@@ -48,6 +48,10 @@ type Overlay struct {
 
 	pendingConfigs    map[TokenID]*GenericConfig
 	pendingConfigsMut sync.Mutex
+
+	// closed is set by Close; no instance is registered afterwards.
+	// Protected by instancesLock.
+	closed bool
 }
 
 // NewOverlay creates a new overlay-structure
@@ -675,6 +679,7 @@ func (o *Overlay) suite() network.Suite {
 func (o *Overlay) Close() {
 	o.instancesLock.Lock()
 	defer o.instancesLock.Unlock()
+	o.closed = true
 	for _, tni := range o.instances {
 		log.Lvl4(o.server.Address(), "Closing TNI", tni.TokenID())
 		o.nodeDelete(tni.Token())
@@ -787,6 +792,13 @@ func (o *Overlay) newTreeNodeInstanceFromToken(tn *TreeNode, tok *Token, io Mess
 	tni := newTreeNodeInstance(o, tok, tn, io)
 	o.instancesLock.Lock()
 	defer o.instancesLock.Unlock()
+	if o.closed {
+		// The overlay has been closed: nobody would ever stop this instance.
+		// It is not registered (so that binding a protocol to it fails with
+		// ErrWrongTreeNodeInstance) and its dispatch routine is stopped.
+		tni.stopDispatch()
+		return tni
+	}
 	o.instances[tok.ID()] = tni
 	return tni
 }
